@@ -55,6 +55,21 @@ for _src, _want, _why in (
          "an error value in a list is still an error value in the loop variable")):
     EXPECT.append({"src": _src, "field": "result", "want": _want, "why": _why})
 
+# break and continue act only on an enclosing loop of the same function: out of a function that has none they are an error of
+# that function and never the loop control of whatever loop the call sits in - for every loop form on the caller's side
+for _body, _call, _how in (("func f() { %s }", "f()", "a function without parameters"), ("func f(a, b, c, d, e) { %s }", "f(1, 2, 3, 4, 5)", "a function of five parameters"),
+                           ("func f(xs...) { %s }", "f(1)", "a variadic function"), ("func f() { if true { %s } }", "f()", "inside a block of the function"),
+                           ("func f() { switch 1 {\ncase 1: %s\n} }", "f()", "inside a switch of the function"), ("f = func() { %s }", "f()", "an anonymous function")):
+    for _sig in ("break", "continue"):
+        for _loop, _lname in (("for i in [1, 2, 3] {", "for-in"), ("for i = 1; i < 4; i++ {", "C-style for"), ("i = 0\nfor i < 3 { i++;", "conditional for"),
+                              ("i = 0\nfor { i++; if i > 3 { break };", "for ever"), ("for i in {\"k\": 1} {", "for-in over a map")):
+            EXPECT.append({"src": (_body % _sig) + "\nr = \"none\"\ntry { %s r = \"in\"; %s; r = \"after the call\" }; r = \"after the loop\" } catch e { r = \"caught\" }\nr" % (_loop, _call),
+                           "field": "result", "want": "s:636175676874", "why": "a stray %s in %s called from a %s loop is an error, not that loop's control" % (_sig, _how, _lname)})
+EXPECT.append({"src": "func g() { for { func() { break }(); return 1 }; return 2 }\n(g()) ?? \"E\"", "field": "result", "want": "s:45",
+               "why": "a break in an anonymous function called inside a loop does not leave that loop"})
+EXPECT.append({"src": "func skip(x) { if x % 2 == 0 { continue } }\nsum = 0\ntry { for x in [1, 2, 3, 4] { skip(x); sum += x } } catch e { sum = \"E\" }\nsum", "field": "result", "want": "s:45",
+               "why": "a continue in a helper function does not continue the caller's loop"})
+
 
 def product():
     out = []
